@@ -119,11 +119,15 @@ def observe(cs):
 
 def same(obs, model):
     """None if the observation equals the model (language codes ignored for single-language sets)"""
+    multi = len(model) > 1
+    # a language that has no cue is not a cue: whether a format keeps its (empty) entry is not part of the property
+    obs = [x for x in obs if x[1]]
+    model = [x for x in model if x[1]]
     if len(obs) != len(model):
         return "language-count"
-    pairs = zip(obs, model) if len(model) == 1 else zip(sorted(obs), sorted(model))
+    pairs = zip(obs, model) if not multi else zip(sorted(obs), sorted(model))
     for (lo, co), (lm, cm) in pairs:
-        if len(model) > 1 and lo != lm:
+        if multi and lo != lm:
             return "language-codes"
         if len(co) != len(cm):
             return "cue-count"
@@ -219,6 +223,10 @@ def double_models():
                 ("en-US", [(pts[a[0]], pts[a[1]], ("one & <two>",))]),
                 ("fr-FR", [(pts[b[0]], pts[b[1]], ("un",)), (pts[b[2]], pts[b[3]], ("deux", "\u00e9"))]),
             ])
+    # a language that has no cue at all, before or after the one that has
+    for a in itertools.combinations(range(6), 2):
+        out.append([("en-US", [(pts[a[0]], pts[a[1]], ("one & <two>",))]), ("fr-FR", [])])
+        out.append([("fr-FR", []), ("en-US", [(pts[a[0]], pts[a[1]], ("one & <two>",))])])
     return out
 
 
